@@ -428,7 +428,7 @@ Proof.
     - constructor. exists ds, bs. auto using prefix_refl.
     - intros _. now rewrite Hs, app_nil_r.
     - destruct Hb; congruence. }
-  unfold w_step, w_step_gen in Hstep. destruct a as [e fl|sz ff|sz ff sok|sz ff sok|].
+  unfold w_step, w_step_gen in Hstep. destruct a as [e fl|sz ff|sz ff sok|sz ff sok| |tr].
   - (* WriteEntry *)
     destruct (w_open w) eqn:Ho; simpl negb in Hstep; cbv iota in Hstep.
     2:{ injection Hstep as <- <- <-. apply Hnop; auto. }
@@ -529,6 +529,31 @@ Proof.
     sc ds' bs HV HO' ltac:(idtac; exact Hc)
          ltac:(idtac; intros _; simpl; rewrite Hb1, (Hclosed eq_refl), !app_nil_r; reflexivity)
          ltac:(idtac; disc).
+  - (* Open that fails while cutting the torn tail off *)
+    destruct (w_open w) eqn:Ho.
+    { injection Hstep as <- <- <-. apply Hnop; auto. }
+    destruct (vol f) as [c|] eqn:Hvol.
+    2:{ injection Hstep as <- <- <-. apply Hnop; auto. }
+    destruct (true && tr && (pre_len nlen <=? clen c) && (good_len nlen c <? clen c)) eqn:Hcond.
+    2:{ injection Hstep as <- <- <-. apply Hnop; auto. }
+    injection Hstep as <- <- <-.
+    apply andb_true_iff in Hcond as [Hcond _]. apply andb_true_iff in Hcond as [_ Hlen].
+    apply N.leb_le in Hlen.
+    destruct HI as (Hd & Hv & Hp & Hok). rewrite Hvol in Hv.
+    inversion Hv as [|m E Hm Hc|t Ht Hc].
+    { exfalso. subst c. pose proof (clen_cut_le m pre). lia. }
+    subst c. rewrite good_len_full by assumption.
+    assert (HV : View f ds bs t) by (split5; auto).
+    assert (HV1 := V_trunc f ds bs t HV).
+    apply step_concl with (ds' := ds) (bs' := bs).
+    + rewrite fs_run_one. eapply view_inv; exact HV1.
+    + intros E. rewrite Ho in E. discriminate.
+    + intros _. apply Hclosed. reflexivity.
+    + apply prefix_refl.
+    + apply prefix_refl.
+    + constructor; [vp0 HV|]. constructor. vp0 HV1.
+    + intros _. simpl. now rewrite app_nil_r.
+    + intros _ H. discriminate H.
 Qed.
 
 End WithName.
@@ -559,7 +584,7 @@ Lemma step_open f w a w1 ops ok :
   w_step nlen f w a = (w1, ops, ok) ->
   w_open w1 = match a with AOpen => true | AClose _ _ _ => false | _ => w_open w end.
 Proof.
-  unfold w_step, w_step_gen. intros H. destruct a as [e fl|sz ff|sz ff sok|sz ff sok|].
+  unfold w_step, w_step_gen. intros H. destruct a as [e fl|sz ff|sz ff sok|sz ff sok| |tr].
   - destruct (w_open w) eqn:Ho; simpl in H.
     + destruct fl as [[sz ff]|].
       * pose proof (flush_open true (mkw true (w_buf w ++ [e]) (w_end w) (w_dirty w)) sz ff) as E.
@@ -584,12 +609,18 @@ Proof.
       * destruct (clen c <? pre_len nlen); [now injection H as <- _ _|].
         now injection H as <- _ _.
       * now injection H as <- _ _.
+  - destruct (w_open w) eqn:Ho.
+    + injection H as <- _ _. exact Ho.
+    + destruct (vol f) as [c|].
+      * destruct (true && tr && (pre_len nlen <=? clen c) && (good_len nlen c <? clen c));
+          injection H as <- _ _; exact Ho.
+      * injection H as <- _ _. exact Ho.
 Qed.
 
 Lemma submitted_cons open a t open1 :
   open1 = match a with AOpen => true | AClose _ _ _ => false | _ => open end ->
   submitted open (a :: t) = sub1 open a ++ submitted open1 t.
-Proof. intros ->. destruct a as [e fl| | | |]; simpl; try reflexivity. now destruct open. Qed.
+Proof. intros ->. destruct a as [e fl| | | | |]; simpl; try reflexivity. now destruct open. Qed.
 
 Lemma run_ok h : forall f w ds bs f' w' ops oks,
   SInv nlen f w ds bs -> Forall api_ok h -> w_run nlen f w h = (f', w', ops, oks) ->
